@@ -8,20 +8,22 @@ Import ListNotations.
 Local Open Scope Z_scope.
 
 Inductive call3 :=
-| CAllAnyDim (any : bool) (s : list Z) (dim : Z) (keepdim : bool) (fibers : option (list (list Z)))   (* fibers: rank >= 1 only *)
-| CAllAnyDims (any : bool) (s : list Z) (dims : option (list Z)) (keepdim : bool)
-| CAllAny (any : bool) (s : list Z)
-| CArg (is_min : bool) (s : list Z) (dim : option Z) (keepdim : bool)
-| CProd (s : list Z) (t : Z) (dtype : option Z)
-| CProdDim (s : list Z) (t : Z) (dim : Z) (keepdim : bool) (dtype : option Z)
+(* leading booleans: which repaired variant (proposed_fixes/ready) the observed skeleton shows; false = the code as read *)
+| CAllAnyDim (gt : bool) (any : bool) (s : list Z) (dim : Z) (keepdim : bool) (fibers : option (list (list Z)))   (* fibers: rank >= 1 only *)
+| CAllAnyDims (gt df : bool) (any : bool) (s : list Z) (dims : option (list Z)) (keepdim : bool)
+| CAllAny (gt : bool) (any : bool) (s : list Z)
+| CArg (af : bool) (is_min : bool) (s : list Z) (dim : option Z) (keepdim : bool)
+| CProd (pf : bool) (s : list Z) (t : Z) (dtype : option Z)
+| CProdDim (pf zf : bool) (s : list Z) (t : Z) (dim : Z) (keepdim : bool) (dtype : option Z)
+| CPrimsVar (cf nf : bool) (s : list Z) (dims : list Z) (c : Q) (ssds : list Q)
 | CLogSumExp (s : list Z) (dims : list Z) (keepdim : bool)
 | CVar (with_mean sqrt_ : bool) (s : list Z) (dims : option (list Z)) (c : Q) (keepdim : bool) (ssds : list Q)
 | CScatterSrc (s : list Z) (dim : Z) (idx src : list Z)
 | CScatterValue (s : list Z) (dim : Z) (idx : list Z)
-| CScatterAdd (s : list Z) (dim : Z) (idx src : list Z)
-| CScatterReduce (s : list Z) (dim : Z) (idx src : list Z) (include_self : bool)
-| CConvolution (s w : list Z) (has_bias : bool) (stride padding dilation : list Z) (transposed : bool) (output_padding : list Z) (groups : Z)
-| CConvNd (e : Z) (s w : list Z) (has_bias : bool) (stride padding dilation : list Z) (groups : Z).
+| CScatterAdd (uf : bool) (s : list Z) (dim : Z) (idx src : list Z)
+| CScatterReduce (uf : bool) (s : list Z) (dim : Z) (idx src : list Z) (include_self : bool)
+| CConvolution (of : bool) (s w : list Z) (has_bias : bool) (stride padding dilation : list Z) (transposed : bool) (output_padding : list Z) (groups : Z)
+| CConvNd (lf bf : bool) (e : Z) (s w : list Z) (has_bias : bool) (stride padding dilation : list Z) (groups : Z).
 
 (* an observed float: exact value of the float32 / float64 number, or its class *)
 Inductive fobs := OFin (q : Q) | OInf (negative : bool) | ONaN.
@@ -43,17 +45,24 @@ Inductive pred3 :=
 Definition b2i (b : bool) : Z := if b then 1 else 0.
 Definition run_call3 (c : call3) : option pred3 :=
   match c with
-  | CAllAnyDim any s dim kd fibers =>
+  | CAllAnyDim gt any s dim kd fibers =>
       obind (aten_allany_dim_shape s dim kd) (fun sh =>
         match fibers with
         | None => Some (P3Shape sh)
-        | Some fs => Some (P3ShapeData sh (map (fun l => b2i (if any then aten_any_fiber l else aten_all_fiber l)) fs))
+        | Some fs => Some (P3ShapeData sh (map (fun l => b2i (if any then (if gt then aten_any_fiber_fixed l else aten_any_fiber l) else aten_all_fiber l)) fs))
         end)
-  | CAllAnyDims _ s dims kd => option_map P3Shape (aten_allany_dims_shape s dims kd)
-  | CAllAny _ s => option_map P3Shape (aten_allany_nodim_shape s false)
-  | CArg _ s dim kd => option_map P3Shape (aten_argmax_shape s dim kd)
-  | CProd s t dt => obind (aten_prod_dtype t dt) (fun t1 => option_map (fun sh => P3ShapeT sh t1) (reduce_shape s None false))
-  | CProdDim s t dim kd dt => obind (aten_prod_dim_dtype t dt) (fun t1 => option_map (fun sh => P3ShapeT sh t1) (aten_prod_dim_shape s dim kd))
+  | CAllAnyDims _ df _ s dims kd => option_map P3Shape (if df then aten_allany_dims_shape_fixed s dims kd else aten_allany_dims_shape s dims kd)
+  | CAllAny _ _ s => option_map P3Shape (aten_allany_nodim_shape s false)
+  | CArg af _ s dim kd => option_map P3Shape (if af then aten_argmax_shape_fixed s dim kd else aten_argmax_shape s dim kd)
+  | CProd pf s t dt => obind (if pf then aten_prod_dtype_fixed t dt else aten_prod_dtype t dt) (fun t1 => option_map (fun sh => P3ShapeT sh t1) (reduce_shape s None false))
+  | CProdDim pf zf s t dim kd dt =>
+      obind (if pf then aten_prod_dtype_fixed t dt else aten_prod_dim_dtype t dt) (fun t1 =>
+        option_map (fun sh => P3ShapeT sh t1) (if zf then aten_prod_dim_shape_fixed s dim kd else aten_prod_dim_shape s dim kd))
+  | CPrimsVar cf nf s dims c ssds =>
+      obind (prims_var_shape s dims) (fun sh =>
+      let n := match torch_var_count s (Some dims) with Some n => n | None => 1 end in
+      obind (if qzero c then Some n else prims_var_count cf s dims) (fun numel =>
+        Some (P3Vals false sh (map (fun ssd => prims_var_val nf ssd n numel c) ssds))))
   | CLogSumExp s dims kd => option_map P3Shape (aten_logsumexp_shape s dims kd)
   | CVar _ sq s dims c kd ssds =>
       obind (aten_var_shape s dims kd) (fun sh =>
@@ -62,35 +71,38 @@ Definition run_call3 (c : call3) : option pred3 :=
         Some (P3Vals sq sh (map (fun ssd => aten_var_val ssd n numel c) ssds))))
   | CScatterSrc s dim idx src => option_map P3Shape (aten_scatter_src_shape s dim idx src)
   | CScatterValue s dim idx => option_map P3Shape (aten_scatter_value_shape s dim idx)
-  | CScatterAdd s dim idx src => option_map P3Shape (aten_scatter_add_shape s dim idx src)
-  | CScatterReduce s dim idx src inc => option_map P3Shape (aten_scatter_reduce_shape s dim idx src inc)
-  | CConvolution s w _ st pd dl tr op g =>
-      obind (aten_convolution_attrs (zlen w - 2) st pd dl tr op) (fun a => option_map P3Shape (conv_shape s w g tr a))
-  | CConvNd e s w hb st pd dl g =>
-      obind (aten_convnd_attrs e st pd dl hb) (fun a => option_map P3Shape (conv_shape s w g false a))
+  | CScatterAdd uf s dim idx src => option_map P3Shape (aten_scatter_add_shape_v uf s dim idx src)
+  | CScatterReduce uf s dim idx src inc => option_map P3Shape (aten_scatter_reduce_shape_v uf s dim idx src inc)
+  | CConvolution of s w _ st pd dl tr op g =>
+      obind (aten_convolution_attrs_v of (zlen w - 2) st pd dl tr op) (fun a => option_map P3Shape (conv_shape s w g tr a))
+  | CConvNd lf bf e s w hb st pd dl g =>
+      obind (aten_convnd_attrs_v lf bf e st pd dl hb) (fun a => option_map P3Shape (conv_shape s w g false a))
   end.
 
 Definition skel_call3 (c : call3) : skel :=
   match c with
-  | CAllAnyDim any _ dim kd _ => skel_allany_dim any dim kd
-  | CAllAnyDims any s dims kd => skel_allany_dims any s dims kd
-  | CAllAny any s => skel_allany_nodim any s false
-  | CArg mn s dim kd => skel_argmax mn s dim kd
-  | CProd _ t dt => skel_prod t dt
-  | CProdDim _ _ dim kd dt => skel_prod_dim dt dim kd
+  | CAllAnyDim gt any _ dim kd _ => skel_allany_dim_v gt any dim kd
+  | CAllAnyDims gt df any s dims kd => skel_allany_dims_v gt df any s dims kd
+  | CAllAny gt any s => skel_allany_nodim_v gt any s false
+  | CArg af mn s dim kd => skel_argmax_v af mn s dim kd
+  | CProd pf _ t dt => skel_prod_v pf t dt
+  | CProdDim pf zf s t dim kd dt => skel_prod_dim_v pf zf s t dt dim kd
+  | CPrimsVar cf nf _ dims c _ => skel_prims_var cf nf dims c
   | CLogSumExp s dims kd => skel_logsumexp s dims kd
   | CVar wm sq _ dims c kd _ => skel_var wm sq dims c kd
   | CScatterSrc _ dim idx src => skel_scatter_src dim idx src
   | CScatterValue _ dim idx => skel_scatter_value dim idx
-  | CScatterAdd _ dim _ _ => skel_scatter_add dim
-  | CScatterReduce s dim _ _ inc => skel_scatter_reduce s dim inc
-  | CConvolution s w _ st pd dl tr op g =>
-      match aten_convolution_attrs (zlen w - 2) st pd dl tr op with
+  | CScatterAdd uf _ dim idx src => skel_scatter_add_v uf dim idx src
+  | CScatterReduce uf s dim idx src inc => skel_scatter_reduce_v uf s dim idx src inc
+  | CConvolution of s w _ st pd dl tr op g =>
+      match aten_convolution_attrs_v of (zlen w - 2) st pd dl tr op with
       | Some a => skel_conv_core s w g tr a
       | None => let e := zlen w - 2 in
                 skel_conv_core s w g tr (conv_expand1 e st, (conv_expand1 e pd ++ conv_expand1 e pd)%list, conv_expand1 e dl, op)
       end
-  | CConvNd e s w hb st pd dl g => (skel_zero_bias e hb ++ skel_conv_core s w g false (st, (pd ++ pd)%list, dl, []))%list
+  | CConvNd lf bf e s w hb st pd dl g =>
+      let x := fun l => if lf then conv_expand1 e l else l in
+      (skel_zero_bias_v bf e hb ++ skel_conv_core s w g false (x st, (x pd ++ x pd)%list, x dl, []))%list
   end.
 
 (* |m - o| <= 2e-4 * |m| + 1e-5 *)
